@@ -37,6 +37,18 @@ if [ "$R_SUITE" != 0 ]; then
       echo "== retry $T ($k)" >>$LOG
       if go test -count=1 -vet=off -timeout 10m -run "^${T}\$" $PKGS >>$LOG 2>&1; then OK=0; break; fi
     done
+    if [ $OK != 0 ]; then
+      # still failing: does it fail on the unmodified tree as well, right now (machine load, ports, mDNS)? Then it says nothing about the patch.
+      W2=/tmp/seedverify-base-$ID-$$
+      git -C /repo worktree add -q --detach $W2 HEAD >>$LOG 2>&1
+      BASEFAIL=0
+      for k in 1 2; do
+        echo "== baseline $T ($k)" >>$LOG
+        (cd $W2 && go test -count=1 -vet=off -timeout 10m -run "^${T}\$" $PKGS) >>$LOG 2>&1 || BASEFAIL=$((BASEFAIL+1))
+      done
+      git -C /repo worktree remove --force $W2 >/dev/null 2>&1
+      if [ $BASEFAIL = 2 ]; then echo "== $T fails on the unmodified tree too (2/2): environment, not counted" >>$LOG; OK=0; fi
+    fi
     [ $OK = 0 ] || R_SUITE=$((R_SUITE+1))
   done
 fi
